@@ -35,6 +35,9 @@ FollowJudge(e) ==
       reqs == [k \in DOMAIN lit |-> lit[k].p]
       onlyLit == Len(lit) = Len(e.reqs)
   IN IF e.hang THEN {"C18.doesNotTerminate"}
+     \* an I/O error (not "does not exist") while a component is looked up: the call must not report success with a
+     \* set that silently lacks what lies behind that component
+     ELSE IF "lookupFault" \in DOMAIN e /\ e.lookupFault THEN (IF e.err THEN {} ELSE {"C18.lookupErrorSwallowed"})
      ELSE IF e.err THEN {"C18.returnedError"}
      ELSE Pfx("C18", IF onlyLit THEN FollowClauses(T, reqs, e.result, e.isNil, e.byteSorted)
                      ELSE \* with wildcard requests only the structural clauses are judged on the literal elements
